@@ -986,6 +986,7 @@ def get_circuit_qec_round(connectivity: IRepetitionCodeDescription, registry: Ac
 
     all_indices: List[int] = connectivity.qubit_indices
     current_active_ancilla_indices: List[int] = []
+    pending_closure: bool = False
 
     for sequence_index in range(connectivity.gate_sequence_count):
         # Check if ancilla's need to be 'activated'
@@ -1004,8 +1005,10 @@ def get_circuit_qec_round(connectivity: IRepetitionCodeDescription, registry: Ac
         # Schedule Ancilla basis rotation for 'activation'
         for qubit_index in require_activation:
             result.add(Ry90(qubit_index))
-        if len(require_activation) > 0:
+        # Closure rotations of the previous layer need to finish before the next gates, also without new activations
+        if len(require_activation) > 0 or pending_closure:
             result.add(Barrier(all_indices))
+        pending_closure = len(require_closure) > 0
 
         # Schedule two-qubit gate
         for index0, index1 in sequence_active_gate_indices:
@@ -1045,6 +1048,7 @@ def get_circuit_qec_round_with_dynamical_decoupling(connectivity: IRepetitionCod
 
     all_indices: List[int] = connectivity.qubit_indices
     current_active_ancilla_indices: List[int] = []
+    pending_closure: bool = False
 
     for sequence_index in range(connectivity.gate_sequence_count):
         # Check if ancilla's need to be 'activated'
@@ -1063,8 +1067,10 @@ def get_circuit_qec_round_with_dynamical_decoupling(connectivity: IRepetitionCod
         # Schedule Ancilla basis rotation for 'activation'
         for qubit_index in require_activation:
             result.add(Ry90(qubit_index))
-        if len(require_activation) > 0:
+        # Closure rotations of the previous layer need to finish before the next gates, also without new activations
+        if len(require_activation) > 0 or pending_closure:
             result.add(Barrier(all_indices))
+        pending_closure = len(require_closure) > 0
 
         # Schedule two-qubit gate
         for index0, index1 in sequence_active_gate_indices:
